@@ -11,9 +11,15 @@ structure Ent where
   kind : Tree.Kind
   name : List UInt8
   target : List UInt8
+  /-- `c:<namehex>:<decimal>` — harness-only set-up step `node->link_count = v` (see `Tree.setCount`) -/
+  poke : Option Nat := none
 
 def parseEnt (tok : String) : Option Ent :=
   match tok.splitOn ":" with
+  | ["c", n, v] => do
+    let name ← fromHex n
+    let v ← v.toNat?
+    if v ≤ 0xFFFFFFFF ∧ Sqfs.Path.canonicalize name = some name then some { kind := .other, name, target := [], poke := some v } else none
   | [k, n, t] => do
     let kind ← (match k with
       | "d" => some Tree.Kind.dir
@@ -31,12 +37,15 @@ def errnoStr : Errno → String
   | .ENOENT => "ENOENT" | .ENOTDIR => "ENOTDIR" | .EMLINK => "EMLINK" | .EPERM => "EPERM"
 
 def addErrStr : Tree.AddErr → String
-  | .EINVAL => "EINVAL" | .ENOTDIR => "ENOTDIR" | .EEXIST => "EEXIST"
+  | .EINVAL => "EINVAL" | .ENOTDIR => "ENOTDIR" | .EEXIST => "EEXIST" | .ENAMETOOLONG => "ENAMETOOLONG"
+  | .EMLINK => "EMLINK" | .ENOENT => "ENOENT"
 
 def buildTree : Tree.T → Nat → List Ent → Except String Tree.T
   | t, _, [] => .ok t
   | t, i, e :: rest =>
-    match Tree.addGeneric Sqfs.Path.canonicalize t e.name e.kind e.target with
+    match (match e.poke with
+           | some v => Tree.setCount t e.name v
+           | none => Tree.addGeneric Sqfs.Path.canonicalize t e.name e.kind e.target) with
     | .error err => .error s!"adderr {i} {addErrStr err}"
     | .ok t' => buildTree t' (i + 1) rest
 
@@ -118,10 +127,10 @@ def showPax (o : PaxOut) : String :=
   (String.join (o.xattr.map (fun x => " " ++ toHexTok x.key ++ "=" ++ toHexTok x.value))).trimAscii.toString ++ "]"
 
 def parserStep : List String → Option String
-  | ["num", fx, h, d] => do
+  | ["num", h, d] => do
     let buf ← fromHex h
     let digits ← d.toNat?
-    pure (showR (fun v => " " ++ toString v) (readNumber (fx = "1") buf 0 digits))
+    pure (showR (fun v => " " ++ toString v) (readNumber buf 0 digits))
   | ["puint", base, len, wd, vmin, vmax, h] => do
     let s ← fromHex h
     let b ← base.toNat?
@@ -165,19 +174,19 @@ def parserStep : List String → Option String
   | ["xdec", h] => do
     let s ← fromHex h
     pure (showR (fun v => " " ++ toHexTok v) (xattrDecode (s ++ [0])))
-  | ["pax", fx, h] => do
+  | ["pax", h] => do
     let s ← fromHex h
-    pure (showR showPax (readPaxHeader (fx = "1") s))
+    pure (showR showPax (readPaxHeader s))
   | ["spnew", rs, h] => do
     let s ← fromHex h
     let r ← rs.toNat?
     pure (showR (fun (v : List SparseEnt × Nat × List UInt8) => " " ++ toString v.2.1 ++ " " ++ toString v.2.2.length ++ showSparse v.1)
       (readGnuNewSparse s r))
-  | ["spold", fx, hh, h] => do
+  | ["spold", hh, h] => do
     let hdr ← fromHex hh
     let s ← fromHex h
-    pure (match readGnuOldSparse (fx = "1") hdr s with
-      | .ok ([], _) => "fail"                 -- an empty map is `NULL`, which `read_header` takes for failure
+    pure (match readGnuOldSparse hdr s with
+      | .ok ([], _) => "fail 0"               -- an empty map is `NULL` (no diagnostic), which `read_header` takes for failure
       | r => showR (fun (v : List SparseEnt × List UInt8) => " " ++ toString v.2.length ++ showSparse v.1) r)
   | _ => none
 
